@@ -51,6 +51,19 @@ func (z *zeroReader) Read(p []byte) (int, error) {
 	return int(m), nil
 }
 
+var failCount = map[string]int{}
+
+// failSome reports the first 25 failures of a class from an exhaustive grid and counts the rest
+// (vh keeps at most 2000 oracle records per run; the grids must not crowd out the bombs).
+func failSome(r *vh.Run, class string, in any, detail string) {
+	failCount[class]++
+	if failCount[class] <= 25 {
+		r.OracleFail(class, in, detail)
+	} else {
+		r.Count("oracle-fail-not-recorded:" + class)
+	}
+}
+
 func guard(r *vh.Run, what string, in any, f func()) {
 	defer func() {
 		if p := recover(); p != nil {
@@ -277,6 +290,9 @@ func main() {
 	lap("rowGuard")
 	rowBombs(r)
 	lap("rowBombs")
+	runLengthK(r)
+	runLengthBombs(r)
+	lap("runLength")
 	bombs(r)
 	lap("bombs")
 	readerBomb(r)
@@ -432,7 +448,7 @@ func rowGuard(r *vh.Run) {
 									eff = filter.DefaultMaxDecodeBytes
 								}
 								if err == nil && !passthru && eff >= 0 && int64(rl) > eff {
-									r.OracleFail("predictor-row-exceeds-limit", in, fmt.Sprintf("row buffers of %d bytes allocated under limit %d (%d bytes produced)", rl, eff, n))
+									failSome(r, "predictor-row-exceeds-limit", in, fmt.Sprintf("row buffers of %d bytes allocated under limit %d (%d bytes produced)", rl, eff, n))
 								} else {
 									r.OracleOK()
 								}
@@ -543,6 +559,244 @@ func rowBombs(r *vh.Run) {
 						}
 					}
 				}
+			}
+		}
+	}
+}
+
+// ---- RunLengthDecode: its own limit counter ----
+
+type rlRun struct {
+	rep bool
+	n   int // literal: 1..128 bytes, repeat: 2..128 copies
+}
+
+// rlEncode encodes a run list (literal bytes count up from seed, repeat runs repeat one byte).
+func rlEncode(runs []rlRun, seed byte, eod bool) ([]byte, int64) {
+	var b []byte
+	var total int64
+	v := seed
+	for _, ru := range runs {
+		if ru.rep {
+			b = append(b, byte(257-ru.n), v)
+			v++
+		} else {
+			b = append(b, byte(ru.n-1))
+			for i := 0; i < ru.n; i++ {
+				b = append(b, v)
+				v++
+			}
+		}
+		total += int64(ru.n)
+	}
+	if eod {
+		b = append(b, 0x80)
+	}
+	return b, total
+}
+
+// runLengthK: exhaustive small instances of runLengthDecode.decode against the model:
+// every run list of up to 3 runs (literal 1..6 / repeat 2..6), limits -1, 0, 1..12, maxLen -1, 0, 3, 7, 12,
+// with and without EOD and with the last byte cut off; plus the ASCIIHex length gate.
+func runLengthK(r *vh.Run) {
+	var opts []rlRun
+	for n := 1; n <= 6; n++ {
+		opts = append(opts, rlRun{false, n})
+	}
+	for n := 2; n <= 6; n++ {
+		opts = append(opts, rlRun{true, n})
+	}
+	var lists [][]rlRun
+	lists = append(lists, nil)
+	for _, a := range opts {
+		lists = append(lists, []rlRun{a})
+		for _, b := range opts {
+			lists = append(lists, []rlRun{a, b})
+			for _, c := range opts {
+				lists = append(lists, []rlRun{a, b, c})
+			}
+		}
+	}
+	mdbs := []int64{-1, 0, 1, 2, 3, 4, 5, 6, 7, 8, 9, 10, 11, 12}
+	maxLens := []int64{-1, 0, 3, 7, 12}
+	for li, l := range lists {
+		for variant := 0; variant < 3; variant++ {
+			if variant > 0 && !r.Thorough() && li%5 != 0 {
+				continue
+			}
+			src, total := rlEncode(l, 0x41, variant == 1)
+			if variant == 2 {
+				if len(src) == 0 {
+					continue
+				}
+				src = src[:len(src)-1]
+			}
+			for _, mdb := range mdbs {
+				for _, ml := range maxLens {
+					if !r.Thorough() && len(l) == 3 && r.Rand.Intn(3) != 0 {
+						continue
+					}
+					in := map[string]any{"fn": "runLengthDecode.decode", "src": vh.Hex(src), "MaxDecodeBytes": mdb, "maxLen": ml}
+					guard(r, "runLengthDecode.decode", in, func() {
+						out, err := filter.VerifC09RunLengthDecode(mdb, src, ml)
+						var res string
+						switch {
+						case err == nil:
+							res = "ok:" + vh.Hex(out)
+						case errors.Is(err, filter.ErrDecodeLimitExceeded):
+							res = "limit:" + vh.Hex(out)
+						case errors.Is(err, io.ErrUnexpectedEOF):
+							res = "eof:" + vh.Hex(out)
+						default:
+							res = "other"
+						}
+						r.Case("rlDecode", []string{vh.Int(mdb), vh.Int(ml), vh.Hex(src)}, res)
+						lim := ml
+						if ml < 0 {
+							lim = mdb
+							if mdb == 0 {
+								lim = filter.DefaultMaxDecodeBytes
+							}
+						}
+						switch {
+						case lim >= 0 && int64(len(out)) > lim:
+							failSome(r, "runlength-exceeds-limit", in, fmt.Sprintf("%d bytes written under limit %d", len(out), lim))
+						case variant != 2 && ml < 0 && lim >= 0 && total > lim && !errors.Is(err, filter.ErrDecodeLimitExceeded):
+							failSome(r, "runlength-bomb-not-rejected", in, fmt.Sprintf("stream decodes to %d bytes, limit %d, err=%v", total, lim, err))
+						default:
+							r.OracleOK()
+						}
+					})
+				}
+			}
+		}
+	}
+	// ASCIIHex length gate through the public filter
+	for d := 0; d <= 26; d++ {
+		for _, mdb := range []int64{-1, 0, 1, 2, 5, 6, 7, 12, 13} {
+			for _, ml := range []int64{-1, 0, 1, 5, 6, 7, 12, 13, 14} {
+				f, _ := filter.NewFilter(filter.ASCIIHex, nil, mdb)
+				rd, err := f.DecodeLength(bytes.NewReader(bytes.Repeat([]byte{'4'}, d)), ml)
+				var res string
+				switch {
+				case err == nil:
+					b, _ := io.ReadAll(rd)
+					res = "alloc:" + vh.Int(int64(len(b)))
+				case errors.Is(err, filter.ErrDecodeLimitExceeded):
+					res = "limit"
+				case errors.Is(err, io.ErrUnexpectedEOF):
+					res = "eof"
+				default:
+					res = "overflow"
+				}
+				r.Case("ahxGate", []string{vh.Int(mdb), vh.Int(int64(d + d%2)), vh.Int(ml)}, res)
+			}
+		}
+	}
+}
+
+// rlBombRuns: a literal head of 1..128 bytes, repeat runs of 2..128 (random), arranged so that one run
+// boundary falls exactly at limit+delta, then more runs up to `total` decoded bytes.
+func rlBombRuns(r *vh.Run, limit int64, delta int, total int64) []rlRun {
+	runs := []rlRun{{false, 1 + r.Rand.Intn(128)}}
+	cum := int64(runs[0].n)
+	target := limit + int64(delta)
+	for cum < target-256 {
+		n := 2 + r.Rand.Intn(127)
+		runs = append(runs, rlRun{true, n})
+		cum += int64(n)
+	}
+	for cum < target { // land a boundary exactly on target
+		n := target - cum
+		if n > 128 {
+			n = 2 + int64(r.Rand.Intn(100))
+		}
+		if n == 1 {
+			runs = append(runs, rlRun{false, 1})
+		} else {
+			runs = append(runs, rlRun{r.Rand.Intn(4) != 0, int(n)})
+		}
+		cum += n
+	}
+	for cum < total {
+		n := 2 + r.Rand.Intn(127)
+		runs = append(runs, rlRun{true, n})
+		cum += int64(n)
+	}
+	return runs
+}
+
+// runLengthBombs: RunLength bombs whose run boundaries cross the limit at every phase, limits that are not
+// powers of two, RunLength alone and as first/middle/last stage of pipelines, full and partial decodes.
+func runLengthBombs(r *vh.Run) {
+	enc := func(name string, b []byte) []byte {
+		f, _ := filter.NewFilter(name, nil)
+		rd, _ := f.Encode(bytes.NewReader(b))
+		o, _ := io.ReadAll(rd)
+		return o
+	}
+	type pipe struct {
+		name    string
+		filters []string
+		wrap    func(rl []byte) []byte
+	}
+	pipes := []pipe{
+		{"[RL]", []string{filter.RunLength}, func(b []byte) []byte { return b }},
+		{"[Flate RL]", []string{filter.Flate, filter.RunLength}, func(b []byte) []byte { return enc(filter.Flate, b) }},
+		{"[AHx RL]", []string{filter.ASCIIHex, filter.RunLength}, func(b []byte) []byte { return enc(filter.ASCIIHex, b) }},
+		{"[RL RL]", []string{filter.RunLength, filter.RunLength}, func(b []byte) []byte { return enc(filter.RunLength, b) }},
+	}
+	step := r.Pick(4, 1)
+	for _, lim := range []int64{1000, 70001, 1<<20 + 13} {
+		for delta := -127; delta <= 127; delta += step {
+			if lim > 100000 && !r.Thorough() && delta%3 != 0 {
+				continue
+			}
+			total := 6*lim + 12345
+			if r.Rand.Intn(8) == 0 {
+				total = lim + int64(delta) // a stream that ends exactly at the phase: legal iff delta <= 0
+			}
+			runs := rlBombRuns(r, lim, delta, total)
+			rl, decoded := rlEncode(runs, byte(r.Rand.Intn(256)), r.Rand.Intn(2) == 0)
+			p := pipes[r.Rand.Intn(len(pipes))]
+			if delta%2 == 0 {
+				p = pipes[0]
+			}
+			raw := p.wrap(rl)
+			for _, ml := range []int64{-1, 10, lim / 2} {
+				in := map[string]any{"pipeline": p.name, "decoded_bytes": decoded, "MaxDecodeBytes": lim, "maxLen": ml, "boundary_at_limit_plus": delta,
+					"encoded_bytes": len(raw), "runs": len(runs), "seed": r.Seed}
+				guard(r, "runlength-bomb", in, func() {
+					var pl []types.PDFFilter
+					for _, n := range p.filters {
+						pl = append(pl, types.PDFFilter{Name: n})
+					}
+					sd := types.NewStreamDict(types.NewDict(), 0, nil, nil, pl)
+					sd.Raw = raw
+					var ms0, ms1 runtime.MemStats
+					runtime.ReadMemStats(&ms0)
+					b, err := sd.DecodeLengthWithLimit(ml, lim)
+					runtime.ReadMemStats(&ms1)
+					grown := int64(ms1.TotalAlloc - ms0.TotalAlloc)
+					in["allocated"] = grown
+					mode := "full"
+					if ml >= 0 {
+						mode = "partial"
+					}
+					switch {
+					case ml < 0 && decoded > lim && !errors.Is(err, filter.ErrDecodeLimitExceeded):
+						r.OracleFail("runlength-bomb-not-rejected", in, fmt.Sprintf("%s: %d decoded bytes under limit %d: err=%v, %d bytes returned, %d allocated", p.name, decoded, lim, err, len(b), grown))
+					case ml < 0 && decoded <= lim && (err != nil || int64(len(b)) != decoded):
+						r.OracleFail("runlength-rejected-below-limit", in, fmt.Sprintf("%s: %d decoded bytes under limit %d: err=%v, %d bytes returned", p.name, decoded, lim, err, len(b)))
+					case ml >= 0 && decoded >= ml && (err != nil || int64(len(b)) < ml || int64(len(b)) > lim):
+						r.OracleFail("runlength-partial-decode-wrong", in, fmt.Sprintf("%s: maxLen %d: err=%v, %d bytes returned", p.name, ml, err, len(b)))
+					case grown > 10*lim+int64(8*len(raw))+(2<<20):
+						r.OracleFail("runlength-bomb-allocates:"+mode, in, fmt.Sprintf("%s: %d bytes allocated under limit %d", p.name, grown, lim))
+					default:
+						r.OracleOK()
+					}
+					r.Count("runlength-bomb:" + p.name + ":" + mode)
+				})
 			}
 		}
 	}
